@@ -223,7 +223,7 @@ func crashAction(repo repository.ClockedRepo, job CrashJob) error {
 // CrashState is what a fresh process sees in the repository.
 type CrashState struct {
 	OpenErr   string              `json:"open_err,omitempty"`
-	Bugs      map[string][]string `json:"bugs"`   // id -> content signatures of the ordered operations
+	Bugs      map[string][]string `json:"bugs"` // id -> content signatures of the ordered operations
 	BugErr    map[string]string   `json:"bug_err"`
 	Idents    map[string][]string `json:"idents"` // id -> content signatures of the versions
 	IdentErr  map[string]string   `json:"ident_err"`
